@@ -319,23 +319,26 @@ fn c05_shard(ctx: &Ctx, out: &mut ShardOut) {
     let b = super::concchecks::budget_for(ctx.tier, ctx.shard_seed(5));
     super::concchecks::C05C.run(ctx, &pool, 21, ctx.share(ctx.by_tier(200, 8_000)) as u32, &b, out);
     super::concchecks::C05R.run(ctx, &pool, 22, ctx.share(ctx.by_tier(120, 6_000)) as u32, &b, out);
-    let lb = Budget { single: 0, double: 0, coarse2: 0, tapes: ctx.by_tier(24, 200) as usize, tape_seed: ctx.shard_seed(94), triple: 0 };
+    let lb = Budget { single: 0, double: 0, coarse2: 0, tapes: ctx.by_tier(24, 200) as usize, tape_seed: ctx.shard_seed(94), triple: 0, stagger: 0 };
     super::concchecks::C05L.run(ctx, &pool, 23, ctx.share(ctx.by_tier(96, 3_000)) as u32, &lb, out);
     for (i, c) in super::concchecks::C05_EXTRA.iter().enumerate() {
         c.run(ctx, &pool, 26 + i as u64, ctx.share(ctx.by_tier(128, 3_000)) as u32, &b, out);
     }
     super::concchecks::C05T.run(ctx, &pool, 24, ctx.share(ctx.by_tier(160, 4_000)) as u32, &b, out);
     super::concchecks::C05H.run(ctx, &pool, 25, ctx.share(ctx.by_tier(96, 2_000)) as u32, &super::concchecks::helpers_budget(ctx.tier, ctx.shard_seed(8)), out);
+    drop(pool);
+    super::concchecks::C05W.run(ctx, &crate::sched::Pool::with_workers(super::concchecks::CROWD_WORKERS), 30, ctx.share(ctx.by_tier(128, 2_000)) as u32, &super::concchecks::crowd_budget(ctx.tier, ctx.shard_seed(9)), out);
 }
 
 fn c05_replay(sub: &str, case: &Value) -> Result<(), CaseFail> {
     match sub {
         "conc" => super::concchecks::C05C.replay(&crate::sched::Pool::new(), case, &super::concchecks::budget_for(Tier::Thorough, 1)),
         "conc-retain" | "conc-drain" | "conc-perkey" | "conc-compute" => super::concchecks::C05_EXTRA.iter().find(|c| c.sub == sub).unwrap().replay(&crate::sched::Pool::new(), case, &super::concchecks::budget_for(Tier::Thorough, 1)),
+        "conc-crowd" => super::concchecks::C05W.replay(&crate::sched::Pool::with_workers(super::concchecks::CROWD_WORKERS), case, &super::concchecks::crowd_budget(Tier::Thorough, 1)),
         "conc-helpers" => super::concchecks::C05H.replay(&crate::sched::Pool::new(), case, &super::concchecks::helpers_budget(Tier::Thorough, 1)),
         "conc-treemove" => super::concchecks::C05T.replay(&crate::sched::Pool::new(), case, &super::concchecks::budget_for(Tier::Thorough, 1)),
         "conc-resize" => super::concchecks::C05R.replay(&crate::sched::Pool::new(), case, &super::concchecks::budget_for(Tier::Thorough, 1)),
-        "conc-long" => super::concchecks::C05L.replay(&crate::sched::Pool::new(), case, &Budget { single: 0, double: 0, coarse2: 0, tapes: 200, tape_seed: 1, triple: 0 }),
+        "conc-long" => super::concchecks::C05L.replay(&crate::sched::Pool::new(), case, &Budget { single: 0, double: 0, coarse2: 0, tapes: 200, tape_seed: 1, triple: 0, stagger: 0 }),
         _ => replay_seq("C05", sub, case, C05_OR),
     }
 }
@@ -367,10 +370,13 @@ fn c04_shard(ctx: &Ctx, out: &mut ShardOut) {
         let helpers = c.sub == "conc-helpers";
         c.run(ctx, &pool, 32 + i as u64, ctx.share(ctx.by_tier(if helpers { 96 } else { 160 }, if helpers { 1_500 } else { 4_000 })) as u32, if helpers { &hb } else { &b }, out);
     }
+    drop(pool);
+    super::concchecks::C04W.run(ctx, &crate::sched::Pool::with_workers(super::concchecks::CROWD_WORKERS), 45, ctx.share(ctx.by_tier(96, 1_500)) as u32, &super::concchecks::crowd_budget(ctx.tier, ctx.shard_seed(10)), out);
 }
 
 fn c04_replay(sub: &str, case: &Value) -> Result<(), CaseFail> {
     match sub {
+        "conc-crowd" => super::concchecks::C04W.replay(&crate::sched::Pool::with_workers(super::concchecks::CROWD_WORKERS), case, &super::concchecks::crowd_budget(Tier::Thorough, 1)),
         s if s.starts_with("conc") => {
             let c = super::concchecks::C04_ALL.iter().find(|c| c.sub == s).unwrap_or(&&super::concchecks::C04C);
             let b = if s == "conc-helpers" { super::concchecks::helpers_budget(Tier::Thorough, 1) } else { super::concchecks::budget_for(Tier::Thorough, 1) };
